@@ -288,6 +288,16 @@ EXTRA = {
 for _k, _v in EXTRA.items():
     CLAIMS[_k]["text"] = CLAIMS[_k]["text"] + _v
 
+# fifth session
+EXTRA5 = {
+    "C06": " Fifth session: the real adaptive_euler_step is under contract for this property as well - every attempt (first and retried) is a step of the solver's own psi Laplacian (the operator that carries the pinned rows) on the caller's psi, and the arrays handed back are the answered attempt's result as it is, on every return path; native: scripted refusals of the first 0..3 attempts on a real solver, terminal sites stay at the terminal value.",
+    "C14": " Fifth session: what 'compares equal' means for the raw data of a step and the per-step records is under contract (array_safe_equals, dataclass_equals, TDGLData.__eq__, DynamicsData.__eq__): equal exactly when every field has the same shape and is close (numpy default tolerances or tighter), no field skipped, fields paired across the two objects, an object equals itself, different classes are unequal, nothing written.",
+    "C18": " Fifth session: the class-level constructors Polygon.from_union / from_intersection / from_difference are under contract (left fold of the named operation over the items in order, requested name and mesh flag, items neither written nor shared) and in the native oracle (three-operand chains against point-wise membership).",
+    "C19": " Fifth session: a rejection may only happen before the run starts - the per-step boundary update (update_mu_boundary, run after the output was created) answers for every current assignment and never raises a validation error; native: currents given as a function of time that are balanced at t = 0 and unbalanced later are refused before any file exists.",
+}
+for _k, _v in EXTRA5.items():
+    CLAIMS[_k]["text"] = CLAIMS[_k]["text"] + _v
+
 checks = []
 for p in props:
     pid = p["id"]
